@@ -5,6 +5,7 @@
    obeys the API contract.  That [priors_ok] is preserved across whole RR operations is not
    proved (docs/C13.md); the check decides the message-level statement on every run with the
    extracted specification (judge13) on the implementation's output. *)
+From QV Require Import Spec.MsgWriterS.
 From QV Require Import Base.ListX Model.MsgWriter Proofs.MsgWriterP Proofs.MsgWriterScanP
      Proofs.MsgWriterNameP Proofs.MsgWriterTabP Proofs.MsgWriterTopP.
 
@@ -96,6 +97,23 @@ Proof.
   apply na_label; [reflexivity|lia|lia|simpl; lia|].
   apply na_root; [simpl; lia|reflexivity].
 Qed.
+
+(* The extracted pointer-rule checker accepts a model run with pointers and rejects the same
+   message with the pointer redirected to a non-label offset. *)
+Definition ex13_ops : list wop :=
+  [OAddQuestion [[119; 119; 119]; [97]]%N 1 1;
+   OAddRr SecAnswer HsQname [[119; 119; 119]; [97]]%N 5 1 300 [1; 98; 1; 97; 0]%N false].
+Example c13_judge_example :
+  match run_writer (repeat 0%N 64) 64 ex13_ops with
+  | Ok rr => judge13 64 64 ex13_ops (rr_outcomes rr) (rr_regs rr) (rr_final rr) = VOk
+             /\ match rr_final rr with
+                | Some (len, b) =>
+                  judge13 64 64 ex13_ops (rr_outcomes rr) (rr_regs rr)
+                          (Some (len, firstn 24 b ++ [13%N] ++ skipn 25 b)) <> VOk
+                | None => False end
+  | _ => False
+  end.
+Proof. vm_compute. split; [reflexivity|discriminate]. Qed.
 
 Print Assumptions c13_owner_pointer_valid.
 Print Assumptions c13_unhinted_pointer_valid.
